@@ -10,7 +10,7 @@ P1 after every delivery the reader's error state is checked and returned.
 """
 import re
 from ..intervals import Intervals, Env, path_of, INF, TOP, hull
-from ..cfg import reach_calls, norm_facts, xrender, expand_locals, Facts, kids, strip, walk, cv, render, short_loc, call_args, TRANSPARENT
+from ..cfg import reach_calls, norm_facts, xrender, expand_locals, Facts, kids, strip, walk, cv, render, short_loc, call_args, call_object, TRANSPARENT
 from ..facts import export_many, AnalysisBroken
 from ..absexec import int_type, type_range
 from .. import units
@@ -49,7 +49,7 @@ NOT_DECIDED = ("*++b1",)     # backspace-skipping scans: while(--n1 > 0 && *++b1
 def run(rep, ctx):
     repo = ctx["repo"]
     fn = [SR2 + r"::.*", r"mp::Lget", r"mp::decstring", r"mp::Read", r"mp::[A-Za-z_0-9]+", r"mp::VecReader::.*",
-          r"mp::SuffixReader::.*", r"mp::SOLHandler_Easy::(OnSuffix|NItemsMax)"]
+          r"mp::SuffixReader::.*", r"mp::SOLHandler_Easy::(OnSuffix|NItemsMax|OnPrimalSolution|OnDualSolution)"]
     jobs = [dict(unit="nl-writer2/src/nl-solver.cc", fn=fn, repo=repo,
                  rec=[r"mp::SufHead", r"mp::SufRead", SR2])]
     F = Facts(export_many(jobs))
@@ -394,6 +394,36 @@ def run(rep, ctx):
                  "every store of a suffix entry is guarded by 0 <= index < NItemsMax(kind), the size of the value vector",
                  "%s: an entry whose index equals the item count (or is negative) is stored outside the vector instead of being rejected as a bad suffix" %
                  ("; ".join(bad[:2]) or "the value vector is not sized by NItemsMax(kind)"))
+
+    # ---- H2: the library's own handler places the primal values in a vector of the model's size --------------------------
+    # the reader offers at most the declared number of values (G1) and vperm_inv_ maps positions of the written model to
+    # indexes in [0, number of variables): the stores are in range iff the vector has the MODEL's size, whatever the file holds
+    h2 = rep.rule("C14.H2", "RANGE", "the library's solution handler stores the primal values, through the variable permutation, in a vector that was given "
+                  "the model's number of variables before the first store (not a size taken from the file)", floor=1)
+    onp = [g for g in funcs if g.qn == "mp::SOLHandler_Easy::OnPrimalSolution"]
+    if not onp:
+        raise AnalysisBroken("C14.H2: SOLHandler_Easy::OnPrimalSolution not found")
+    g = sorted(onp, key=lambda x: x.full)[0]
+    stores = [n for n in g.walk() if n["k"] == "CXXOperatorCallExpr" and n.get("op") == "[]" and txt(call_args(n)[0]).endswith("x_")
+              and any(p_["k"] == "BinaryOperator" and p_.get("op") == "=" and strip(kids(p_)[0]).get("i") == n.get("i") for p_ in g.walk())]
+    sizers = [c for c in g.walk() if c["k"] == "CXXMemberCallExpr" and re.search(r"::(resize|assign)$", c.get("callee") or "")
+              and txt(call_object(c)).endswith("x_")]
+    bad = []
+    if not stores:
+        bad.append("no subscripted store into x_ found")
+    for n in stores:
+        dom = [c for c in sizers if g.cfg.dominates(c, n)]
+        if not dom:
+            bad.append("`%s` is not preceded by a resize of x_" % render(n)[:50])
+            continue
+        last = max(dom, key=lambda c: sum(1 for d in dom if g.cfg.dominates(d, c)))
+        a0 = xrender(g, call_args(last)[0], True)
+        if not re.search(r"header_\.num_vars$|NItemsMax\(0\)$", a0.replace(" ", "")) or "Size(" in a0:
+            bad.append("x_ is sized by `%s` before `%s`: with fewer values in the file than variables in the model the permuted positions lie outside the vector" % (a0[:50], render(n)[:50]))
+        ix = txt(call_args(n)[1])
+        if "vperm_inv_" not in xrender(g, call_args(n)[1], True):
+            bad.append("`%s` stores at `%s`, not at the caller's position of the variable" % (render(n)[:50], ix))
+    h2.check(not bad, "handler-primal-size", short_loc(g.loc), "x_ has header_.num_vars elements before every store x_[vperm_inv_[i]]", "; ".join(bad[:2]))
 
     # ---- F1: file text never becomes a printf format -------------------------------------------------
     f1 = rep.rule("C14.F1", "WHO", "the error formatter (vsnprintf) receives literal formats only; text read from the file is passed as an argument, and the conversions match the arguments", floor=8)
